@@ -6,4 +6,6 @@ pub mod tape;
 pub mod runner;
 pub mod drive;
 pub mod gen;
+pub mod mutate;
+pub mod oracle;
 pub mod props;
